@@ -41,7 +41,7 @@ ASSUMPTIONS = [
     "numpy astype/tobytes/frombuffer/reshape and msgpack round-trip values of the encoded types",
     "attrs strips the leading underscore of private fields for the init keyword",
 ]
-FLOORS = {"C01.R1": 40, "C01.R2": 16, "C01.R3": 30, "C01.R4": 9, "C01.R5": 8, "C01.R6": 4}
+FLOORS = {"C01.R1": 40, "C01.R2": 16, "C01.R3": 30, "C01.R4": 9, "C01.R5": 8, "C01.R6": 4, "C01.R7": 2}
 
 PAIRS = [
     ("mol", 1, "_serialize_mol_v1", "_deserialize_mol_v1"),
@@ -76,6 +76,7 @@ def run(chk):
     chk.call(r3_schemas, chk)
     chk.call(r5_library, chk)
     chk.call(r6_collection, chk)
+    chk.call(r7_empty_shapes, chk)
 
 
 # ---------------------------------------------------------------------------
@@ -559,6 +560,16 @@ def r5_library(chk):
         for g in walk_no_nested(init.node):
             if isinstance(g, ast.If) and any(x is v for v in v1 for x in ast.walk(g)):
                 foreign |= {n for n in names_in(g.test) - {"path", "Path", "header", vvar, "os", "f"} if not is_module_constant(n)}
+        foreign.discard("overwrite")  # `... and not overwrite` is required, see the next obligation
+        # the header that decides is the header of the file the library will *have*: when the file is about to be overwritten
+        # (a new file in the current format is created in its place) the old file's magic must not select the legacy codec
+        if "overwrite" in init.params():
+            body_ow = specialize(init.node.body, "overwrite", True, {})
+            still = [s_ for b_ in body_ow for s_ in ast.walk(b_) if isinstance(s_, ast.Assign) and norm(s_.targets[0]) == vvar and norm(s_.value) == "1"]
+            chk.decide(not still, "C01.R5", f"{init.key}:overwritten-file-does-not-choose-the-codec", init.where(v1[0]),
+                       f"with overwrite=True `{vvar} = 1` is unreachable",
+                       f"`{vvar} = 1` is still reachable when overwrite=True: the legacy codec is chosen from a file that is then replaced by a new one in the current format - "
+                       "everything written through this handle is unreadable for every later handle (ValueError: not enough values to unpack)")
         chk.decide(not foreign, "C01.R5", f"{init.key}:version-from-file-only", init.where(v1[0]),
                    "the legacy codec is selected from the file's own header and nothing else",
                    f"the choice of the v1 codec also depends on {sorted(foreign)}: the same legacy file gets different codecs depending on how it is opened, "
@@ -600,6 +611,62 @@ def r5_library(chk):
 
 
 # ---------------------------------------------------------------------------
+def r7_empty_shapes(chk):
+    """The readers rebuild an object with `cls(<list of atoms>, ...)`.  The list is empty for an object without atoms (the
+    property quantifies over 0 atoms): no constructor branch that an empty list satisfies may take `other[0]`."""
+    from ..canon import path_conditions
+
+    prog = chk.prog
+    for spec in ("molli.chem.ensemble:ConformerEnsemble", "molli.chem.molecule:Molecule"):
+        ci = prog.cls(spec)
+        for c in prog.mro(ci):
+            r = c.members.get("__init__")
+            if r is None or r.func is None:
+                continue
+            init = prog.method(c, "__init__")
+            if init is None or init.cls != c:
+                continue
+            chk.analysed(init)
+            p0 = init.params()[1] if len(init.params()) > 1 else None
+            if p0 is None:
+                continue
+
+            def truth(cj):
+                """value of a condition when p0 == [] (None: unknown)"""
+                t = norm(cj)
+                if t == f"isinstance({p0}, list)":
+                    return True
+                if t.startswith(f"isinstance({p0}, ") and "list" not in t:
+                    return False
+                if isinstance(cj, ast.Call) and call_name(cj) == "all" and cj.args and isinstance(cj.args[0], (ast.GeneratorExp, ast.ListComp)) and norm(cj.args[0].generators[0].iter) == p0:
+                    return True
+                if isinstance(cj, ast.Call) and call_name(cj) == "any" and cj.args and isinstance(cj.args[0], (ast.GeneratorExp, ast.ListComp)) and norm(cj.args[0].generators[0].iter) == p0:
+                    return False
+                if t in (p0, f"len({p0})", f"len({p0}) > 0", f"len({p0}) >= 1", f"len({p0}) != 0", f"bool({p0})", f"{p0} != []"):
+                    return False
+                if t in (f"not {p0}", f"len({p0}) == 0", f"{p0} == []"):
+                    return True
+                if t in (f"{p0} is None", f"{p0} is not None"):
+                    return t.endswith("is not None")
+                return None
+
+            bad = []
+            for n_ in walk_no_nested(init.node):
+                if isinstance(n_, ast.Subscript) and norm(n_.value) == p0 and isinstance(n_.slice, ast.Constant) and isinstance(n_.slice.value, int) and isinstance(n_.ctx, ast.Load):
+                    st = [s_ for s_ in walk_no_nested(init.node) if isinstance(s_, ast.stmt) and any(x is n_ for x in ast.walk(s_))]
+                    conds = path_conditions(init.node, st[-1]) if st else []
+                    vals = [truth(cj) for cj in conds]
+                    if not any(v is False for v in vals) and any(v is True for v in vals):
+                        bad.append((n_, [norm(cj) for cj in conds]))
+            key = f"{init.key}:empty-atom-list-not-indexed"
+            if bad:
+                chk.fail("C01.R7", key, init.where(bad[0][0]),
+                         f"`{norm(bad[0][0])}` is evaluated under {bad[0][1]}, which an empty list satisfies (all() over nothing is True): an object without atoms is written "
+                         f"but cannot be read back - the reader's cls([]...) raises IndexError")
+            else:
+                chk.ok("C01.R7", key, init.where(), f"no branch that an empty list satisfies indexes `{p0}`")
+
+
 def r6_collection(chk):
     prog = chk.prog
     ci = prog.cls(f"{COLL}:Collection")
